@@ -186,6 +186,64 @@ def ob_defuzz(kind, r, B, dyadic=False):
     return run
 
 
+def ob_reuse(kind, r1, r2, how):
+    """one defuzzifier object used at resolution r1, reconfigured to r2 (attribute / configure()), optionally over another range and
+    another set, then used again: the second result must be the documented value at the *current* resolution and range"""
+    def run(ob):
+        fl = install()
+        set_mode("R")
+        lo, hi, lo2, hi2 = rvar("lo"), rvar("hi"), rvar("lo2"), rvar("hi2")
+        rows1 = [[rvar(f"y0_{i}") for i in range(r1)]]
+        rows2 = [[rvar(f"z0_{i}") for i in range(r2)]]
+        pre = [lo.v < hi.v, lo2.v < hi2.v] + [unit(y) for y in rows1[0] + rows2[0]]
+        ins = {"lo": lo, "hi": hi, "lo2": lo2, "hi2": hi2}
+        ins.update({f"y0_{i}": rows1[0][i] for i in range(r1)})
+        ins.update({f"z0_{i}": rows2[0][i] for i in range(r2)})
+        label = f"reuse/{kind}/r{r1}-r{r2}/{how}"
+
+        def rbody(v):
+            a, b = [v[f"y0_{i}"] for i in range(r1)], [v[f"z0_{i}"] for i in range(r2)]
+            same_range = how.endswith("same-range")
+            l2, h2 = ("lo", "hi") if same_range else ("lo2", "hi2")
+            return PYREF + "\n".join([
+                f"A = {lit([a])}; Bv = {lit([b])}; lo, hi, lo2, hi2 = {lit(v['lo'])}, {lit(v['hi'])}, {lit(v[l2])}, {lit(v[h2])}",
+                f"D = fl.{kind}({r1}); D.defuzzify(Fixed(A), lo, hi)",
+                (f"D.resolution = {r2}" if how.startswith("attribute") else f"D.configure('{r2}')"),
+                "got = np.atleast_1d(D.defuzzify(Fixed(Bv), lo2, hi2))",
+                f"exp = [ref('{kind}', Bv[0], lo2, hi2)]",
+                f"verdict(not same(got, exp, 1e-9), '{kind} reused after changing the resolution {r1} -> {r2}: got %r, documented %r' % (got.tolist(), exp))"])
+
+        rp = replay_fn(PROPERTY, label, rbody, key=None)
+
+        def body():
+            D = getattr(fl, kind)(r1)
+            D.defuzzify(make_term(fl, rows1), lo, hi)
+            if how.startswith("attribute"):
+                D.resolution = r2
+            else:
+                D.configure(str(r2))
+            t = make_term(fl, rows2)
+            if how.endswith("same-range"):
+                return D.defuzzify(t, lo, hi), t.asked, (lo, hi)
+            return D.defuzzify(t, lo2, hi2), t.asked, (lo2, hi2)
+
+        for p in ob.paths(pre, body):
+            if p.exc is not None:
+                ob.unexpected(pre, p, label, ins, rp)
+                continue
+            res, asked, (l, h) = p.result
+            X = zmid(l.v, h.v, r2)
+            if len(asked) != 1 or len(elements(asked[0])) != r2:
+                ob.prove(pre, p, False, f"{label}/sample-points {len(asked)}x{[kind_of(a) for a in asked]} expected {r2} midpoints", ins, rp)
+                continue
+            ob.prove(pre, p, z3.And(*[is_val(a, x) for a, x in zip(elements(asked[0]), X)]), f"{label}/midpoints", ins, rp)
+            e = tf(elements(res)[0])
+            ob.prove(pre, p, spec_claim(kind, e, [y.v for y in rows2[0]], X), f"{label}/definition", ins, rp)
+            ob.expect_sat(pre, p, ZB(e.nan), f"{label}/twin")
+
+    return run
+
+
 def ob_order(r):
     def run(ob):
         fl = install()
@@ -306,6 +364,12 @@ def _obligations(tier, seed):
             if kind == "Bisector" and tier == "quick":
                 continue      # the nested ties of the bisector at r=8 exceed the quick per-query budget (thorough tier)
             obs.append((f"{kind}/r{r}/dyadic", ob_defuzz(kind, r, 1, dyadic=True)))
+    for kind in DEFUZZ:
+        for (r1, r2) in (((3, 2), (2, 3)) if tier == "quick" else ((3, 2), (2, 3), (4, 1), (1, 4), (2, 2))):
+            for how in ("attribute/same-range", "configure/same-range", "attribute/other-range"):
+                if tier == "quick" and (r1, r2) == (2, 3) and how != "attribute/same-range":
+                    continue
+                obs.append((f"reuse/{kind}/r{r1}-r{r2}/{how}", ob_reuse(kind, r1, r2, how)))
     for r in rs:
         obs.append((f"order/r{r}", ob_order(r)))
         obs.append((f"translation/r{r}", ob_translation(r)))
